@@ -23,8 +23,13 @@ def ev(f):
         return ('raise', type(e).__name__)
 
 
+# values that exist in memory only (NaN / INF with a unit has no ZINC or JSON literal): they take part in == like any other
+_NAN = float('nan')
+EXTRA = [C.E('qty:nan kg', N.num(_NAN, 'kg'), rep=True), C.E('qty:nan m', N.num(_NAN, 'm'), rep=True), C.E('qty:inf kg', N.num(float('inf'), 'kg'))]
+
+
 def entries(soft=False):
-    return [e for e in C.V if soft or not e.soft]
+    return [e for e in C.V if soft or not e.soft] + EXTRA
 
 
 def has_nan(n):
@@ -268,6 +273,16 @@ def structural(st):
     def v_colmeta_val(g):
         g.column['a']['cm'] = 'y'
 
+    def v_none_colmeta_renamed(g):
+        # a tag whose value is None, under another name on the other side (both sides hold the same NUMBER of tags)
+        g.column['a']['other_name'] = g.column['a'].pop('nn')
+
+    def v_none_meta_renamed(g):
+        g.metadata['other_name'] = g.metadata.pop('nn')
+
+    def v_none_vs_marker(g):
+        g.column['a']['nn'] = hs.MARKER
+
     def v_meta_val(g):
         g.metadata['gm'] = hs.MARKER
 
@@ -286,6 +301,22 @@ def structural(st):
     def v_absent_first_row(g):
         del g[0]['a']
 
+    def base_with_none():
+        g = base()
+        g.column['a']['nn'] = None
+        g.metadata['nn'] = None
+        return g
+    for name, mut in (('column-metadata-name-of-a-None-valued-tag', v_none_colmeta_renamed), ('metadata-name-of-a-None-valued-tag', v_none_meta_renamed),
+                      ('column-metadata-None-vs-marker', v_none_vs_marker)):
+        g, h = base_with_none(), base_with_none()
+        mut(h)
+        for x, y, d in ((g, h, 'a,b'), (h, g, 'b,a')):
+            st.count('executions')
+            r = ev(lambda: x == y)
+            st.case(('structural', name, d), outcome=(r[0], str(r[1])))
+            if r != ('ok', False):
+                st.fail('grid-equality-raised' if r[0] == 'raise' else 'materially-different-grids-compare-equal',
+                        {'difference': name, 'exc': str(r[1])}, {'kind': 'structural', 'difference': name, 'order': d}, {'observed': repr(r)})
     for name, mut in (('row-count', v_rows), ('column-name', v_colname), ('metadata-name', v_meta_name), ('column-metadata-name', v_colmeta_name),
                       ('column-metadata-value', v_colmeta_val), ('metadata-value', v_meta_val), ('extra-column', v_extra_col), ('cell', v_cell),
                       ('null-vs-str', v_absent_vs_null), ('absent-vs-str', v_absent_vs_value), ('absent-vs-number', v_absent_first_row)):
